@@ -1,5 +1,5 @@
 import NfcVerif.Model.AdvT12
-import NfcVerif.Model.IsoDep
+import NfcVerif.Model.IsoDepC08
 /-!
 # C08: Type 3 / Type 4 NDEF readers and `nfc.tag.activate` against an adversarial tag
 
@@ -58,13 +58,33 @@ def sendCmd3 (t : Tag) (code : Nat) (data : Bytes) (sendIdm : Bool) (s : S3) : P
      { s with w := (trx t 3 s.w ([2 + (if sendIdm then s.idm else []).length + data.length, code] ++
           (if sendIdm then s.idm else []) ++ data)).2 })
 
-/-- `polling(0x12FC)` + the assignments of `_read_ndef_data` -/
+/-- `Type3Tag.polling(system_code, request_code, time_slots=0)`: the tuple `(idm, pmm)` for a 16 octet
+answer, `(idm, pmm, request data)` for an 18 octet answer; the answer must have the length that
+belongs to the request code -/
+def pollingTuple (t : Tag) (sys rc : Nat) (s : S3) : Py (List Bytes) × S3 :=
+  if rc ≠ 0 ∧ rc ≠ 1 ∧ rc ≠ 2 then (.error .value, s)
+  else if sys ≥ 65536 then (.error .struct, s)                       -- pack(">HBB", system_code, ...)
+  else
+    match sendCmd3 t 0 [sys / 256, sys % 256, rc, 0] false s with
+    | (.error e, s') => (.error e, s')
+    | (.ok d, s') =>
+      if d.length ≠ (if rc = 0 then 16 else 18) then (.error (.tagCmd 4), s')
+      else if d.length = 16 then (.ok [d.take 8, (d.drop 8).take 8], s')
+      else (.ok [d.take 8, (d.drop 8).take 8, (d.drop 16).take 2], s')
+
+/-- `idm, pmm = <tuple>`: `ValueError` unless the tuple has exactly two members -/
+def unpack2 : List Bytes → Py (Bytes × Bytes)
+  | [a, b] => .ok (a, b)
+  | _ => .error .value
+
+/-- `self.tag.idm, self.tag.pmm = self._tag.polling(0x12FC); self.tag.sys = 0x12FC` of `_read_ndef_data` -/
 def polling3 (t : Tag) (s : S3) : Py Unit × S3 :=
-  match sendCmd3 t 0 [0x12, 0xFC, 0, 0] false s with
+  match pollingTuple t 0x12FC 0 s with
   | (.error e, s') => (.error e, s')
-  | (.ok d, s') =>
-    if d.length ≠ 16 then (.error (.tagCmd 4), s')
-    else (.ok (), { s' with idm := d.take 8, pmm := (d.drop 8).take 8, sys := 0x12FC })
+  | (.ok tup, s') =>
+    match unpack2 tup with
+    | .error e => (.error e, s')
+    | .ok (idm, pmm) => (.ok (), { s' with idm := idm, pmm := pmm, sys := 0x12FC })
 
 /-- `BlockCode(n).pack()` -/
 def blockCode (bn : Nat) : Py Bytes :=
@@ -308,27 +328,25 @@ def readNdef4 {σ} (X : Xp σ) (known : Option Info) (s : σ) : σ × Py (Option
 /-- the adversarial card as a `Peer`: its state is the number of frames received -/
 def oraclePeer (t : Tag) : Peer Nat := ⟨fun n _ => (n + 1, t n)⟩
 
+/-- what changes in the ISO-DEP initiator from one APDU to the next: the air interface, the block number,
+`self.errno` -/
 structure S4 where
   world : World Nat
-  pcd : Pcd
-  /-- errno of an earlier unrecoverable error (only used when `sticky`) -/
-  errno : Option Int
+  pni : Nat
+  failed : Option Int
 
-/-- `Type4Tag.transceive` = `IsoDepInitiator.exchange`; `F` = fuel of the three block level loops.
+/-- `Type4Tag.transceive` = `IsoDepInitiator.exchange` (`Model/IsoDepC08.lean`: with the switches of
+`c.fx` for the termination repairs).  `p0` holds what activation fixed (MIU, retry counts).
 `sticky`: the tree contains "no further ISO-DEP commands after an unrecoverable error" (fixes/C12). -/
-def isoX (t : Tag) (F : Nat) (sticky : Bool) : Xp S4 :=
+def isoX (t : Tag) (c : IsoDepR.Cfg) (p0 : Pcd) (sticky : Bool) : Xp S4 :=
   ⟨fun s cmd =>
-    match sticky, s.errno with
-    | true, some e => (s, .error (.tagCmd e))
-    | _, _ =>
-      let r := IsoDep.exchange (oraclePeer t) F s.pcd cmd s.world
-      let s' : S4 := { s with world := r.1, pcd := r.2.1 }
-      match r.2.2 with
-      | .error (.tagCmd e) => ({ s' with errno := some e }, .error (.tagCmd e))
-      | x => (s', x)⟩
+    match IsoDepR.exchange (oraclePeer t) c
+        { p0 with pni := s.pni, failed := if sticky then s.failed else none } cmd s.world with
+    | (w, pcd, r) => ({ world := w, pni := pcd.pni, failed := pcd.failed }, r)⟩
 
 def toWorld (w : W) : World Nat := { card := w.n, script := [], trace := w.log.reverse }
-def ofWorld (x : World Nat) : W := { n := x.card, log := x.trace.reverse }
+/-- every `clf.exchange` appends its frame to the trace -/
+def ofWorld (x : World Nat) : W := { n := x.trace.length, log := x.trace.reverse }
 
 /-! ## activation -/
 
@@ -347,11 +365,12 @@ inductive TagObj
   | t1 (cls : String) (uid : Bytes)
   | t2 (cls : String)
   | t3 (cls : String) (idm pmm : Bytes) (sys : Nat)
-  | t4 (cls : String) (pcd : Pcd)
+  /-- `lim` = `max_wtxm_sum` of the ISO-DEP initiator -/
+  | t4 (cls : String) (pcd : Pcd) (lim : Nat)
   deriving Repr
 
 def TagObj.cls : TagObj → String
-  | .t1 c _ => c | .t2 c => c | .t3 c _ _ _ => c | .t4 c _ => c
+  | .t1 c _ => c | .t2 c => c | .t3 c _ _ _ => c | .t4 c _ _ => c
 
 def versionMap : List (Bytes × String) :=
   [([0x00, 0x04, 0x03, 0x01, 0x01, 0x00, 0x0B, 0x03], "MF0UL11"),
@@ -442,7 +461,7 @@ def activate (t : Tag) (maxSend maxRecv : Nat) (g : Target) (w : W) : Py (Option
             | (none, w') => (.ok none, w')
             | (some ats, w') =>
               let p := atsParams ats
-              (.ok (some (.t4 "Type4ATag" (IsoDep.mkPcd p.1 p.2 maxSend))), w')
+              (.ok (some (.t4 "Type4ATag" (IsoDep.mkPcd p.1 p.2 maxSend) (IsoDepR.wtxLimit p.2))), w')
           else (.ok none, w)
   else if g.tech = 1 then
     -- Type4BTag.__init__
@@ -451,7 +470,10 @@ def activate (t : Tag) (maxSend maxRecv : Nat) (g : Target) (w : W) : Py (Option
     | (some _, w') =>
       match IsoDep.activateB g.sensb maxSend with
       | .error e => (.error e, w')
-      | .ok pcd => (.ok (some (.t4 "Type4BTag" pcd)), w')
+      | .ok pcd =>
+        match idxN g.sensb 11 with
+        | .error e => (.error e, w')
+        | .ok b => (.ok (some (.t4 "Type4BTag" pcd (IsoDepR.wtxLimit (b >>> 4)))), w')
   else
     -- tt3.activate
     if sliceN g.sensf 1 3 = [0x01, 0xFE] then (.ok none, w)
